@@ -2,6 +2,7 @@ package main
 
 import (
 	"bytes"
+	"io"
 	"math"
 	"math/rand"
 	"strconv"
@@ -325,6 +326,7 @@ func bedDrive(args []string) error {
 		bad := bedRecord(r, 12)
 		bad.N = badN[r.Intn(len(badN))]
 		write(bad, false)
+		catch(func() { x := bedRecord(newRand(int64(sid)+99991), 6); x.MarshalText(); x.Write(io.Discard) }) // one more call after the last record
 		for _, h := range hs {
 			h.ev.BM = ints(h.bm)
 			tw.emit(h.ev)
